@@ -119,7 +119,7 @@ def run(ctx) -> Report:
     prog = ctx.prog
     cls = prog.get_class(CLS)
     ctx.crosscheck_dispatch({"SumDegreeEstimator"})
-    pb = lambda n: Obj("pullback:" + n, __class__=prog.get_class("ufl.pullback." + n))  # noqa: E731
+    pb = lambda n, *a: uflmodel.make_pullback(prog, n, *a)  # noqa: E731
 
     def world(gdim, tdim):
         ucell = Obj("cell", cellname={1: "interval", 2: "triangle", 3: "tetrahedron"}[tdim], topological_dimension=tdim)
@@ -129,12 +129,14 @@ def run(ctx) -> Report:
         dom.attrs["iterable_like"] = lambda element: [dom for _ in range(element.attrs["num_sub_elements"])]
         return dom
 
-    def element(deg, ref_shape=(), pullback="IdentityPullback", subs=(), sub=None):
+    def element(deg, ref_shape=(), pullback="IdentityPullback", subs=(), sub=None, pullback_args=()):
         size = 1
         for d in ref_shape:
             size *= d
-        e = Obj("element", embedded_superdegree=deg, embedded_subdegree=deg if sub is None else sub, reference_value_shape=tuple(ref_shape), reference_value_size=size, sub_elements=list(subs), num_sub_elements=len(subs), pullback=pb(pullback))
+        e = Obj("element", embedded_superdegree=deg, embedded_subdegree=deg if sub is None else sub, reference_value_shape=tuple(ref_shape), reference_value_size=size, sub_elements=list(subs), num_sub_elements=len(subs), pullback=None)
         e.attrs["__class__"] = None
+        # mixed and symmetric pullbacks are constructed from the element (and the symmetry map) by their own __init__
+        e.attrs["pullback"] = pb(pullback, e, *pullback_args) if pullback in ("MixedPullback", "SymmetricPullback") else pb(pullback)
         return e
 
     def form_arg(name, el, dom, shape, degrees, klass="Coefficient"):
@@ -223,15 +225,13 @@ def run(ctx) -> Report:
     dom3 = world(3, 2)
     rt = element(3, (2,), "ContravariantPiola")
     mixed3 = element(3, (3,), "MixedPullback", [rt, element(1)])
-    mixed3.attrs["pullback"].attrs["_element"] = mixed3
     w3 = form_arg("wr", mixed3, dom3, (4,), lambda c: [3, 3, 3, 1][c[0]])
     for k in range(4):
         cases.append((f"wr[{k}] (RT3 x P1 on a triangle in R^3: physical layout 3+1)", idx(w3, k), dom3))
         cases.append((f"wr[{k}]*wr[{k}]", P(idx(w3, k), idx(w3, k)), dom3))
     # ---- symmetric element: physical component -> sub-element through the symmetry map ---------------
     sym_subs = [element(1), element(3), element(2)]
-    symel = element(3, (3,), "SymmetricPullback", sym_subs)
-    symel.attrs["pullback"].attrs.update(_element=symel, _symmetry={(0, 0): 0, (0, 1): 1, (1, 0): 1, (1, 1): 2})
+    symel = element(3, (3,), "SymmetricPullback", sym_subs, pullback_args=({(0, 0): 0, (0, 1): 1, (1, 0): 1, (1, 1): 2},))
     ws = form_arg("ws", symel, dom, (2, 2), lambda c: {(0, 0): 1, (0, 1): 3, (1, 0): 3, (1, 1): 2}[c])
     for a in range(2):
         for b in range(2):
